@@ -6,7 +6,7 @@
     in stages: an intermediate value (the centre of the circle, the adjusted radius) is first enclosed in a
     small box by [interval], then the rest is proved for every point of the box.  The lemmas below are the glue:
     they are trivial instantiations, so nothing is assumed about the intermediate values. *)
-From Coq Require Import Reals Lra.
+From Coq Require Import Reals Lra Psatz.
 From CB Require Import Base.Vec3 Model.C08_Arcs.
 Open Scope R_scope.
 
@@ -61,6 +61,44 @@ Proof.
   intros (Hx & H1 & H2). destruct (Rlt_dec (a3_flipq_at c ps pb pe) 0).
   - apply a3_len_at_flip. auto.
   - apply a3_len_at_noflip. split; [lra | auto].
+Qed.
+
+(** ** half circles: the cosine is within rounding of -1, where the atan form of acos is not available; acos is
+    decreasing, so the angle lies between acos xh and pi for any upper bound xh of the cosine *)
+Lemma acos_decr x y : -1 <= x -> x <= y -> y <= 1 -> acos y <= acos x.
+Proof.
+  intros Hx Hxy Hy. destruct (Rle_lt_dec (acos y) (acos x)) as [H|H]; [exact H|exfalso].
+  pose proof (acos_bound x) as Bx. pose proof (acos_bound y) as By.
+  assert (K : cos (acos y) < cos (acos x)) by (apply cos_decreasing_1; lra).
+  rewrite !cos_acos in K by lra. lra.
+Qed.
+
+Lemma acos_lower x xh : x <= xh -> -1 < xh < 1 -> acos xh <= acos x <= PI.
+Proof.
+  intros Hx Hh. split; [|apply acos_bound].
+  destruct (Rle_dec x (-1)) as [L|L].
+  - unfold acos at 2. destruct (Rle_dec x (-1)); [|contradiction]. apply acos_bound.
+  - apply acos_decr; lra.
+Qed.
+
+Lemma Rabs_le_elim a b : Rabs a <= b -> - b <= a <= b.
+Proof. unfold Rabs. destruct (Rcase_abs a); lra. Qed.
+
+Lemma Rabs_le_intro a b : - b <= a <= b -> Rabs a <= b.
+Proof. unfold Rabs. destruct (Rcase_abs a); lra. Qed.
+
+Lemma a3_len_at_near_pi c ps pb pe L t xh :
+  -1 < xh < 1 -> a3_x_at c ps pe <= xh ->
+  Rabs (acos_atan xh * norm (vsub pe c) - L) <= t ->
+  Rabs ((2 * PI - acos_atan xh) * norm (vsub pe c) - L) <= t ->
+  Rabs (a3_len_at c ps pb pe - L) <= t.
+Proof.
+  intros Hh Hx H1 H2. rewrite <- (acos_atan_eq _ Hh) in H1, H2.
+  destruct (acos_lower _ _ Hx Hh) as [A1 A2].
+  pose proof (norm_nonneg (vsub pe c)) as Hr.
+  apply Rabs_le_elim in H1. apply Rabs_le_elim in H2. apply Rabs_le_intro.
+  unfold a3_len_at. set (A := acos (a3_x_at c ps pe)) in *. set (a := acos xh) in *. set (r := norm (vsub pe c)) in *.
+  destruct (Rlt_dec (a3_flipq_at c ps pb pe) 0); split; nra.
 Qed.
 
 Lemma a3_length_staged ps pb pe L t lo hi :
